@@ -23,7 +23,7 @@ fn so2_of(s: &CompoundState) -> &SO2State { (&*s.components[1] as &dyn Any).down
 
 // C13 (BOUNDED in layout: R^1 x SO(2); symbolic weights, bounds and states): distance law
 #[kani::proof]
-#[kani::unwind(4)]
+#[kani::unwind(7)]
 #[kani::stub(f64::sqrt, sqrt_model)]
 #[kani::stub(f64::powi, powi_model)]
 #[kani::stub(f64::rem_euclid, rem_euclid_model)]
@@ -48,7 +48,7 @@ fn compound_distance_law_r1_so2() {
 }
 // interpolation, bounds check and bounds enforcement act component by component
 #[kani::proof]
-#[kani::unwind(4)]
+#[kani::unwind(7)]
 #[kani::stub(f64::rem_euclid, rem_euclid_model)]
 fn compound_componentwise_r1_so2() {
     let (a_sp, b_sp) = (r1(), so2());
